@@ -296,7 +296,7 @@ def long_chain(rnd: random.Random, grammar: str, clauses: int) -> tuple[str, str
     return s, "long-chain"
 
 
-def long_nest(rnd: random.Random, grammar: str, depth: int) -> tuple[str, str]:
+def long_nest(rnd: random.Random, grammar: str, depth: int, big: bool = False) -> tuple[str, str]:
     inner = 'os_name == "a"' if rnd.random() < 0.6 else gen_marker.marker(rnd, max_leaves=2)
     k = rnd.random()
     if k < 0.6:
@@ -304,8 +304,9 @@ def long_nest(rnd: random.Random, grammar: str, depth: int) -> tuple[str, str]:
     elif k < 0.8:
         m = "(" * depth + inner + ")" * (depth - 1)
     else:
+        # alternating and/or nesting: the simplifier's cost explodes with the depth, so only `big` cases go deep
         m = inner
-        for i in range(depth):
+        for i in range(depth if big else min(depth, rnd.choice([3, 5, 8]))):
             m = f'({m} {rnd.choice(["and", "or"])} extra == "e{i}")'
     if grammar == "marker":
         return m, "long-nest"
@@ -371,8 +372,8 @@ def gen(grammar: str, rnd: random.Random, long_ok: bool = True, big: bool = Fals
     if r < 0.55:
         return long_run(rnd, grammar, rnd.choice([200, 2000, 10000, 10000]))
     if r < 0.85:
-        return long_chain(rnd, grammar, rnd.choice([20, 60, 120]) if not big else rnd.choice([300, 600, 1200]))
-    return long_nest(rnd, grammar, rnd.choice([5, 20, 60, 150]) if not big else rnd.choice([400, 1200, 3000]))
+        return long_chain(rnd, grammar, rnd.choice([10, 25, 50]) if not big else rnd.choice([300, 600, 1200]))
+    return long_nest(rnd, grammar, rnd.choice([5, 20, 60, 150, 400, 1500]), big)
 
 
 # ---------------------------------------------------------------------------------------------------------
